@@ -4,6 +4,7 @@ import LoraVerif.Lemmas.PhyLemmas
 import LoraVerif.Lemmas.PhyHistory
 import LoraVerif.Lemmas.PhyOps126
 import LoraVerif.Lemmas.PhyOps127
+import LoraVerif.Props.C14IrqMode
 /-!
 # C14 — the PHY driver and the radio chip never disagree about the radio's state
 
